@@ -65,27 +65,33 @@ func decodePD(c *config.PDServerConfig) interface{} {
 	return withList(decode(c), "runtime-services", c.RuntimeServices)
 }
 
+// requested sections carry the reflective view as well
+func reqSched(c *config.ScheduleConfig) interface{}     { return withFields(decode(c), c) }
+func reqRepl(c *config.ReplicationConfig) interface{}   { return withFields(decodeRepl(c), c) }
+func reqPD(c *config.PDServerConfig) interface{}        { return withFields(decodePD(c), c) }
+func reqRM(c *config.ReplicationModeConfig) interface{} { return withFields(decode(c), c) }
+
 // servedSecs observes the configuration the server serves (Server.Get* after a call).
 func servedSecs(s *server.Server) secs {
 	return secs{
-		"schedule":         decode(s.GetScheduleConfig()),
-		"replication":      decodeRepl(s.GetReplicationConfig()),
-		"pd-server":        decodePD(s.GetPDServerConfig()),
+		"schedule":         withFields(decode(s.GetScheduleConfig()), s.GetScheduleConfig()),
+		"replication":      withFields(decodeRepl(s.GetReplicationConfig()), s.GetReplicationConfig()),
+		"pd-server":        withFields(decodePD(s.GetPDServerConfig()), s.GetPDServerConfig()),
 		"label-property":   decode(s.GetLabelProperty()),
 		"cluster-version":  decode(s.GetClusterVersion()),
-		"replication-mode": decode(s.GetReplicationModeConfig()),
+		"replication-mode": withFields(decode(s.GetReplicationModeConfig()), s.GetReplicationModeConfig()),
 	}
 }
 
 // optSecs observes a PersistOptions object (the freshly reloaded one).
 func optSecs(o *config.PersistOptions) secs {
 	return secs{
-		"schedule":         decode(o.GetScheduleConfig()),
-		"replication":      decodeRepl(o.GetReplicationConfig()),
-		"pd-server":        decodePD(o.GetPDServerConfig()),
+		"schedule":         withFields(decode(o.GetScheduleConfig()), o.GetScheduleConfig()),
+		"replication":      withFields(decodeRepl(o.GetReplicationConfig()), o.GetReplicationConfig()),
+		"pd-server":        withFields(decodePD(o.GetPDServerConfig()), o.GetPDServerConfig()),
 		"label-property":   decode(o.GetLabelPropertyConfig()),
 		"cluster-version":  decode(o.GetClusterVersion()),
-		"replication-mode": decode(o.GetReplicationModeConfig()),
+		"replication-mode": withFields(decode(o.GetReplicationModeConfig()), o.GetReplicationModeConfig()),
 	}
 }
 
@@ -192,6 +198,9 @@ func normalised(s secs) map[string]string {
 func normSection(n string, in interface{}) string {
 	{
 		v := deepCopy(in)
+		if m, ok := v.(map[string]interface{}); ok {
+			normFields(m)
+		}
 		switch n {
 		case "schedule":
 			if m, ok := v.(map[string]interface{}); ok {
